@@ -287,10 +287,12 @@ def run(ctx):
         per = max(1, 1500 // len(strata))
         calls = [a for k in sorted(strata) for a in rng.sample(strata[k], min(per, len(strata[k])))]
     ev, meta = [], []
-    for i, a in enumerate(calls):
+    # instances pinned by known_findings.json are evaluated in every run (a known finding is reported on every run, with its own key)
+    pinned = [(dict(cls='Stiefel', method='polar', d=6, r=6, opt=0, cplx=False, p32=True, batch=3, mag=1), 14627)]
+    for i, a in enumerate([p[0] for p in pinned] + calls):
         ctx.case(('manifold',) + tuple(sorted(a.items())))
         try:
-            e = build_event(a, ctx.seed * 1000003 + i)
+            e = build_event(a, pinned[i][1] if i < len(pinned) else ctx.seed * 1000003 + i)
             ev.append(e)
             meta.append(a)
         except Exception as ex:
@@ -303,7 +305,7 @@ def run(ctx):
     ctx.traces += len(ev)
     for gi, info in rej:
         a = meta[gi]
-        ctx.violation('C01:%s:%s:%s' % (a['cls'], a['method'] or 'default', info[-1]),
+        ctx.violation('C01:%s:%s:%s%s' % (a['cls'], a['method'] or 'default', info[-1], ':float32' if a['p32'] else ''),
                       '%s(method=%s, dim=%d, rank=%d, opt=%d, %s, %s, batch=%s, |theta|<=%g): claim "%s" rejected - the output is not on the manifold / the call routes disagree'
                       % (a['cls'], a['method'], a['d'], a['r'], a['opt'], 'complex' if a['cplx'] else 'real', 'float32' if a['p32'] else 'float64', a['batch'] or None, MAG[a['mag']], info[-1]),
                       dict(descriptor=a, failing_claim=info[-1], seed=ev[gi]['seed']))
